@@ -459,6 +459,8 @@ func quoteAll(xs []string) []string {
 //	return-false             universal quantifier (if ... { return false })
 //	return                   any other return inside the loop
 //	call:<f>                 calls a function for each entry
+//	setflag:<field>          assigns the constant true/false to a field (x.Dirty = true)
+//	cond-call:<f>            calls a function in the condition of an if statement
 func classifyRange(p *packages.Package, fd *ast.FuncDecl, loop *ast.RangeStmt) string {
 	feats := map[string]bool{}
 	slices := map[string]bool{}
@@ -472,10 +474,22 @@ func classifyRange(p *packages.Package, fd *ast.FuncDecl, loop *ast.RangeStmt) s
 				} else {
 					feats["return"] = true
 				}
+			case *ast.IfStmt:
+				ast.Inspect(x.Cond, func(c ast.Node) bool {
+					if call, ok := c.(*ast.CallExpr); ok {
+						feats["cond-call:"+exprString(p, call.Fun)] = true
+					}
+					return true
+				})
 			case *ast.AssignStmt:
 				for i, lhs := range x.Lhs {
 					if _, ok := lhs.(*ast.IndexExpr); ok {
 						feats["insert"] = true
+					}
+					if sel, ok := lhs.(*ast.SelectorExpr); ok && i < len(x.Rhs) {
+						if v := exprString(p, x.Rhs[i]); v == "true" || v == "false" {
+							feats["setflag:"+sel.Sel.Name+"="+v] = true
+						}
 					}
 					if i < len(x.Rhs) {
 						if call, ok := x.Rhs[i].(*ast.CallExpr); ok && exprString(p, call.Fun) == "append" {
